@@ -472,6 +472,22 @@ def code_uses(repo, chk, oid):
                     chk.bad(oid, 'use-restriction', site, ast.unparse(p)[:100], f'arithmetic on category codes ({ast.unparse(p)[:60]}): an injective relabelling of the codes changes its outcome')
                 elif isinstance(p, ast.Compare):
                     if any(isinstance(o, (ast.Lt, ast.LtE, ast.Gt, ast.GtE)) for o in p.ops):
+                        # a bounds check against the size of a table that is indexed by the code (code < len(table) / code < <largest code> + 1):
+                        # the same order embedding as the table itself, not a comparison of two codes
+                        others = [x for x in [p.left] + list(p.comparators) if x is not top and x is not n]
+                        def is_size(x, depth=0):
+                            if depth > 3:
+                                return False
+                            if isinstance(x, ast.Call) and isinstance(x.func, ast.Name) and x.func.id == 'len':
+                                return True
+                            if isinstance(x, ast.Attribute) and x.attr in ('size',):
+                                return True
+                            if isinstance(x, ast.Name):
+                                ds = [d for d in own_nodes(fn.node) if isinstance(d, ast.Assign) and len(d.targets) == 1 and isinstance(d.targets[0], ast.Name) and d.targets[0].id == x.id]
+                                return len(ds) == 1 and (is_size(ds[0].value, depth + 1) or (isinstance(ds[0].value, ast.BinOp) and _sizes_or_indexes(ds[0].value, par, m, depth + 1)))
+                            return False
+                        if len(others) == 1 and is_size(others[0]):
+                            continue
                         chk.bad(oid, 'use-restriction', site, ast.unparse(p)[:100], 'ordering comparison on category codes: an order-reversing relabelling changes its outcome')
                 elif isinstance(p, ast.Call):
                     d = m.dotted(p.func) or ''
@@ -505,7 +521,9 @@ def code_uses(repo, chk, oid):
     chk.require_count('uses of code-valued names in the kernel', n_uses, 15)
 
 
-def _sizes_or_indexes(node, par, m):
+def _sizes_or_indexes(node, par, m, depth=0):
+    if depth > 4:
+        return False
     """the value of `node` is only used as the size of an allocation (np.zeros(<largest code> + 1) / minlength=): a table with one slot per
     code.  An index computed by arithmetic on a code (Y[(row + code) % n]) is NOT such a use: it depends on the numeric value."""
     cur, p = node, par.get(node)
@@ -532,7 +550,8 @@ def _sizes_or_indexes(node, par, m):
             while par.get(fn_node) is not None:
                 fn_node = par.get(fn_node)
             uses = [x for x in ast.walk(fn_node) if isinstance(x, ast.Name) and x.id == name and isinstance(x.ctx, ast.Load)]
-            return bool(uses) and all(_sizes_or_indexes(u, par, m) for u in uses)
+            # (a bounds check `code < size` is a use of the size as a size)
+            return bool(uses) and any(_sizes_or_indexes(u, par, m, depth + 1) for u in uses) and all(_sizes_or_indexes(u, par, m, depth + 1) or isinstance(par.get(u), ast.Compare) for u in uses)
         if isinstance(p, ast.BinOp):
             cur, p = p, par.get(p)
             continue
